@@ -481,6 +481,17 @@ def generate(repo):
     if cls is None:
         raise Unsupported("class %s not found" % CLASS)
     fns = {f.name: f for f in cls.body if isinstance(f, ast.FunctionDef)}
+    # instance level or class level?  This translation gives every mapper object its own record of table contents:
+    # that is the meaning of `self.a` only for attributes that __init__ binds (self.a = <new container>) before any
+    # use.  A table bound in the CLASS BODY and not rebound by __init__ is ONE object shared by every instance:
+    # not expressible here - fail closed (Gen/RoutesMapperObj.v, the object-level translation, emits the shared store)
+    if "__init__" in fns:
+        from dv import gen_routes_mapper_obj as obj_level
+        resolve, level, _bound = obj_level.classify(cls, fns)
+        shared = sorted(a for a, r in resolve.items() if r == "class")
+        if shared:
+            raise Unsupported("class-level container(s) %s (class body line %s) are shared by every %s instance: the value-level "
+                              "translation (one record per object) does not apply" % (shared, [level[a] for a in shared], CLASS))
     # the dict kinds are fixed by __init__: compile it first for its constructor expressions, emit in PLAN order
     kinds = {}
     specs = {name: dict(spec) for name, spec in PLAN}
